@@ -70,6 +70,11 @@ impl Case {
 pub fn gen_user_red(r: &mut Rng) -> Option<[f32; 3]> {
     if r.chance(1, 3) {
         if r.chance(1, 8) {
+            // a user value that happens to equal the built-in default (or a regulatory value) is still the user's value:
+            // it must win over whatever the file says
+            return Some(*r.pick(&[[0.0, 1.3, 0.3], [1.0, 0.0, 0.0], [0.0, 1.0, 0.0]]));
+        }
+        if r.chance(1, 8) {
             // more decimals than the three the text form of a factor keeps, next to a carry (0.9996 -> 1.000)
             let near = |r: &mut Rng| (1 + r.below(2)) as f32 - (1 + r.below(5)) as f32 / 10000.0;
             return Some([near(r), near(r), r.below(6000) as f32 / 10000.0]);
